@@ -81,6 +81,8 @@ pub static SPOOF_SNDBUF: AtomicUsize = AtomicUsize::new(0);
 /// crash (SIGKILL self) immediately before the k-th *counted* system call (sendmsg/send/socketpair/close); -1 = off
 pub static CRASH_AT: AtomicI64 = AtomicI64::new(-1);
 pub static CALLNO: AtomicI64 = AtomicI64::new(0);
+/// pause immediately before the k-th counted system call: write "p\n" to stdout, then wait for one byte on stdin; -1 = off
+pub static PAUSE_AT: AtomicI64 = AtomicI64::new(-1);
 pub static COUNT_CALLS: AtomicBool = AtomicBool::new(false);
 /// make connect() fail with ECONNREFUSED / bind() fail: counters of forced failures
 pub static FAIL_MMAP: AtomicBool = AtomicBool::new(false);
@@ -281,6 +283,16 @@ fn counted_call() {
                 loop {
                     libc::pause();
                 }
+            }
+        }
+        if PAUSE_AT.load(Ordering::SeqCst) == n {
+            unsafe {
+                let e = errno();
+                let msg = b"p\n";
+                libc::write(1, msg.as_ptr() as *const libc::c_void, 2);
+                let mut b = [0u8; 1];
+                libc::read(0, b.as_mut_ptr() as *mut libc::c_void, 1);
+                set_errno(e);
             }
         }
     }
